@@ -3,6 +3,7 @@
 #include <array>
 #include <atomic>
 #include <bitset>
+#include <chrono>
 #include <deque>
 #include <forward_list>
 #include <list>
@@ -21,6 +22,7 @@
 #include "bitserializer/types/std/array.h"
 #include "bitserializer/types/std/atomic.h"
 #include "bitserializer/types/std/bitset.h"
+#include "bitserializer/types/std/chrono.h"
 #include "bitserializer/types/std/deque.h"
 #include "bitserializer/types/std/forward_list.h"
 #include "bitserializer/types/std/list.h"
@@ -55,6 +57,8 @@ struct MapRef
 template <class A, class TMap>
 void SerializeObject(A& ar, MapRef<TMap>& r) { BitSerializer::SerializeObject(ar, r.m, r.mode); }
 
+enum class Color { Red, Green, Blue };
+
 struct Row
 {
 	int32_t id = 0;
@@ -63,11 +67,15 @@ struct Row
 	bool flag = false;
 	std::optional<int32_t> opt;
 	std::u16string wide;
+	Color color = Color::Red;
+	std::chrono::time_point<std::chrono::system_clock, std::chrono::seconds> when{};
 
 	template <class A>
 	void Serialize(A& ar)
 	{
 		using BitSerializer::KeyValue;
+		ar << KeyValue("color", color);
+		ar << KeyValue("when", when);
 		ar << KeyValue("id", id);
 		ar << KeyValue("name", name);
 		ar << KeyValue("score", score);
@@ -90,7 +98,23 @@ struct Inner
 	}
 };
 
-struct Zoo
+// members of Zoo in Serialize order (bit positions of Zoo::saveMask)
+static const char* const kZooOrder[] = { "base", "color", "emap", "dur", "durMs", "tp", "tpMs", "vec", "vbool", "deq", "lst", "fwd", "arr", "val", "que", "stk", "pq", "set", "mset", "uset", "umset", "map", "imap", "mmap", "umap", "ummap", "mapOnlyExist", "mapUpdate", "opt", "optStr", "uptr", "sptr", "uobj", "bits", "tup", "pr", "atom", "s", "s16", "s32", "ws", "vv", "mv", "vo", "vobj", "bin", "rows" };
+
+struct ZooBase
+{
+	int32_t baseId = 0;
+	std::string baseName;
+	template <class A>
+	void Serialize(A& ar)
+	{
+		using BitSerializer::KeyValue;
+		ar << KeyValue("baseId", baseId);
+		ar << KeyValue("baseName", baseName);
+	}
+};
+
+struct Zoo : ZooBase
 {
 	std::vector<int32_t> vec;
 	std::vector<bool> vbool;
@@ -132,61 +156,88 @@ struct Zoo
 	std::vector<Inner> vobj;
 	std::vector<unsigned char> bin;
 	std::vector<Row> rows;   // the CSV root; also saved as a member in tree archives
+	Color color = Color::Red;
+	std::map<Color, int32_t> emap;
+	std::chrono::seconds dur{};
+	std::chrono::milliseconds durMs{};
+	std::chrono::system_clock::time_point tp{};
+	std::chrono::time_point<std::chrono::system_clock, std::chrono::milliseconds> tpMs{};
 
 	// which load modes are applied to mapOnlyExist/mapUpdate (Clean when false: used for plain round trips)
 	bool useLoadModes = false;
 	// XML element names cannot be numbers: maps with integer keys are left out there
 	bool skipIntKeyMaps = false;
+	// bit i = member #i (in Serialize order, see kZooOrder) is saved
+	uint64_t saveMask = ~0ull;
 
 	template <class A>
 	void Serialize(A& ar)
 	{
 		using BitSerializer::KeyValue;
-		ar << KeyValue("vec", vec);
-		ar << KeyValue("vbool", vbool);
-		ar << KeyValue("deq", deq);
-		ar << KeyValue("lst", lst);
-		ar << KeyValue("fwd", fwd);
-		ar << KeyValue("arr", arr);
-		ar << KeyValue("val", val);
-		ar << KeyValue("que", que);
-		ar << KeyValue("stk", stk);
-		ar << KeyValue("pq", pq);
-		ar << KeyValue("set", set);
-		ar << KeyValue("mset", mset);
-		ar << KeyValue("uset", uset);
-		ar << KeyValue("umset", umset);
-		ar << KeyValue("map", map);
-		if (!skipIntKeyMaps) { ar << KeyValue("imap", imap); }
-		ar << KeyValue("mmap", mmap);
-		ar << KeyValue("umap", umap);
-		ar << KeyValue("ummap", ummap);
+		// F(...) saves member #i only when its bit is set in saveMask (documents that omit fields); loading always asks for every member
+		int idx = 0;
+		auto F = [&](auto&& kv) { const int i = idx++; if (A::IsLoading() || ((saveMask >> i) & 1)) ar << std::forward<decltype(kv)>(kv); };
+		F(BitSerializer::BaseObject<ZooBase>(*this));
+		F(KeyValue("color", color));
+		F(KeyValue("emap", emap));
+		F(KeyValue("dur", dur));
+		F(KeyValue("durMs", durMs));
+		F(KeyValue("tp", tp));
+		F(KeyValue("tpMs", tpMs));
+		F(KeyValue("vec", vec));
+		F(KeyValue("vbool", vbool));
+		F(KeyValue("deq", deq));
+		F(KeyValue("lst", lst));
+		F(KeyValue("fwd", fwd));
+		F(KeyValue("arr", arr));
+		F(KeyValue("val", val));
+		F(KeyValue("que", que));
+		F(KeyValue("stk", stk));
+		F(KeyValue("pq", pq));
+		F(KeyValue("set", set));
+		F(KeyValue("mset", mset));
+		F(KeyValue("uset", uset));
+		F(KeyValue("umset", umset));
+		F(KeyValue("map", map));
+		if (!skipIntKeyMaps) { F(KeyValue("imap", imap)); } else { ++idx; }
+		F(KeyValue("mmap", mmap));
+		F(KeyValue("umap", umap));
+		F(KeyValue("ummap", ummap));
 		{
 			MapRef<std::map<std::string, int32_t>> r1{ mapOnlyExist, useLoadModes ? BitSerializer::MapLoadMode::OnlyExistKeys : BitSerializer::MapLoadMode::Clean };
-			ar << KeyValue("mapOnlyExist", r1);
+			F(KeyValue("mapOnlyExist", r1));
 			MapRef<std::map<std::string, int32_t>> r2{ mapUpdate, useLoadModes ? BitSerializer::MapLoadMode::UpdateKeys : BitSerializer::MapLoadMode::Clean };
-			ar << KeyValue("mapUpdate", r2);
+			F(KeyValue("mapUpdate", r2));
 		}
-		ar << KeyValue("opt", opt);
-		ar << KeyValue("optStr", optStr);
-		ar << KeyValue("uptr", uptr);
-		ar << KeyValue("sptr", sptr);
-		ar << KeyValue("uobj", uobj);
-		ar << KeyValue("bits", bits);
-		ar << KeyValue("tup", tup);
-		ar << KeyValue("pr", pr);
-		ar << KeyValue("atom", atom);
-		ar << KeyValue("s", s);
-		ar << KeyValue("s16", s16);
-		ar << KeyValue("s32", s32);
-		ar << KeyValue("ws", ws);
-		ar << KeyValue("vv", vv);
-		ar << KeyValue("mv", mv);
-		ar << KeyValue("vo", vo);
-		ar << KeyValue("vobj", vobj);
-		ar << KeyValue("bin", bin);
-		ar << KeyValue("rows", rows);
+		F(KeyValue("opt", opt));
+		F(KeyValue("optStr", optStr));
+		F(KeyValue("uptr", uptr));
+		F(KeyValue("sptr", sptr));
+		F(KeyValue("uobj", uobj));
+		F(KeyValue("bits", bits));
+		F(KeyValue("tup", tup));
+		F(KeyValue("pr", pr));
+		F(KeyValue("atom", atom));
+		F(KeyValue("s", s));
+		F(KeyValue("s16", s16));
+		F(KeyValue("s32", s32));
+		F(KeyValue("ws", ws));
+		F(KeyValue("vv", vv));
+		F(KeyValue("mv", mv));
+		F(KeyValue("vo", vo));
+		F(KeyValue("vobj", vobj));
+		F(KeyValue("bin", bin));
+		F(KeyValue("rows", rows));
 	}
 };
 
 } // namespace vm
+
+// (the macro pastes the type name into an identifier, so it needs an unqualified name)
+namespace vm { using ZooColor = Color; }
+using vm::ZooColor;
+REGISTER_ENUM(ZooColor, {
+	{ ZooColor::Red, "Red" },
+	{ ZooColor::Green, "Green" },
+	{ ZooColor::Blue, "Blue" }
+})
